@@ -54,6 +54,9 @@ RULE = "R-INDUCT"
 ALIAS = {"channel": "self", "channel_reader": "reader"}
 
 
+from .report import memoised as _memoised
+
+
 def _lt(a, b):
     return ("le", L.ladd(L.lsub(a, b), L.lconst(1)))
 
@@ -497,8 +500,15 @@ class Induct:
             n0 = info["v"]["self->holds.n"]
             ncur = st.cells.get("self->holds.n")
             if info.get("reg"):
-                if ncur is None or not st.entails_eq(L.lsub(ncur, L.ladd(n0, L.lconst(1)))):
-                    self.problem(op, "frame", "%s: registering a reader does not grow the reader count by exactly one" % op)
+                grown = ncur is not None and st.entails_eq(L.lsub(ncur, L.ladd(n0, L.lconst(1))))
+                # refused: the table is full - count and id unchanged, and the reader is told (error status)
+                rid_ = st.cells.get("reader->id")
+                stat_ = st.cells.get("reader->status")
+                from .channelrules import hold_slots
+                refused = (ncur is None or st.entails_eq(L.lsub(ncur, n0))) and rid_ is not None and st.entails_eq(rid_) and \
+                    st.entails_le(L.lsub(L.lconst(hold_slots(self.prog)), n0)) and stat_ is not None and L.is_const(stat_) and stat_.get(L.ONE, 0) != 0
+                if not (grown or refused):
+                    self.problem(op, "frame", "%s: registering a reader does not grow the reader count by exactly one (nor is it refused, with an error status, because the table is full)" % op)
             # other readers untouched
             if info.get("K") is not None:
                 kp, kc = hold_keys(info["K"])
@@ -559,6 +569,7 @@ class Induct:
                     self.res.oblige(RULE, inst, True, "%d entry state(s) satisfying the invariant, %d return state(s), each entails it again" % (ent, rets), f.loc())
 
 
+@_memoised
 def rule_induct(prog, res, with_mapped=True):
     """with_mapped: the writer operations are also analysed with a mapped reader on slot J (M(r) is
     preserved by them) - the half of the induction step that the reader operations rely on"""
